@@ -24,6 +24,7 @@ EXPLANATION = (
     "a list/ndarray puts element i in row i and that later changes to the caller's buffer do not show through - pandas "
     "semantics (under the installed pandas 3 column assignment copies, so the explicit np.copy is not a necessary "
     "condition and is deliberately not checked).")
+EXPLANATION += (" A dispatch that depends on the VALUE of a coordinate is a violation. Premise: C09's get_cell rules (coordinate -> id).")
 ASSUMPTIONS = ["pandas column assignment / drop semantics", "C09 (row i holds the cell with id i)"]
 
 DW = ENV + 'DiscreteWorld'
